@@ -138,8 +138,9 @@ def numclass(lit):
         return "number:int"
     frac = "frac" if m.group(3) else "nofrac"
     exp = "noexp" if not m.group(4) else ("exp-" if m.group(5) == "-" else "exp+")
-    big = ":bigintpart" if int(m.group(2)) > I64_MAX else ""
-    return "number:%s:%s%s" % (frac, exp, big)
+    if int(m.group(2)) > I64_MAX:
+        return "number:integer-part-beyond-int64"
+    return "number:%s:%s" % (frac, exp)
 
 
 def _close(a, b):
@@ -578,10 +579,13 @@ def _big_stack(fn, *a):
     return box["r"]
 
 
-def positions(n):
-    """Edit positions used for a base document of n bytes (all of them up to 120 bytes, else an even sample)."""
-    stride = 1 if n <= 120 else (n + 119) // 120
-    return stride, 0
+def positions(n, quick=False):
+    """Edit positions used for a base document of n bytes: all of them up to 120 bytes, else an even sample of
+    about 120 (documents over 600 bytes, i.e. the deep/long ones whose parse costs ~1 ms under ASan: about 24 in the quick tier)."""
+    if n <= 120:
+        return 1, 0
+    want = 24 if (quick and n > 600) else 120
+    return (n + want - 1) // want, 0
 
 
 def mutants_at(b, pos):
@@ -636,7 +640,7 @@ def _gen_worker2(workdir, tier, seed, k, nshards):
             if len(b) <= 1000 and di % 2 == 0:
                 with open(os.path.join(workdir, "c05.corpus", "%d_%d" % (k, di)), "wb") as cf:
                     cf.write(b)
-            stride, off = positions(len(b))
+            stride, off = positions(len(b), quick)
             f.write("A\t%s\t%d\t%d\n" % (bid, stride, off))
             for pos in range(off, len(b), stride):
                 for op, byte, m in mutants_at(b, pos):
@@ -780,6 +784,7 @@ def _judge_worker2(workdir, k):
                 return {"error": "[harness-error] short observation line %r" % line[:200]}
             obs.setdefault(p[0], {})[int(p[1])] = (p[2].split(","), int(p[3]), p[4], p[5])
     bases = {}
+    base_default_bad = {}
     judged = 0
     with open(os.path.join(workdir, "c05.cases.%d.tsv" % k)) as f:
         for line in f:
@@ -823,6 +828,8 @@ def _judge_worker2(workdir, k):
                 except Exception as ex:
                     raise RuntimeError("[harness-error] unreadable tagged value for case %s: %r" % (cid, ex))
 
+            if kind == "S":
+                base_default_bad[p[2]] = False
             if kind in ("S", "T", "M", "P"):
                 st, ref = reference(doc)
                 if st == "outscope":
@@ -851,10 +858,14 @@ def _judge_worker2(workdir, k):
                     if sts[2] != "ok":
                         viol("conformance:rejected:%s:%s" % (mn, cause(sts[2], what, doc)),
                              "standard-compliant document rejected in %s mode: %s: %s" % (mn, sts[2], what), case)
+                        if kind == "S" and mode == 0:
+                            base_default_bad[p[2]] = True
                         continue
                     r = compare(ref, tagval(tagcol))
                     if r:
                         viol("conformance:value:" + r[0], "value differs from CPython json.loads (%s mode): %s" % (mn, r[1]), case)
+                        if kind == "S" and mode == 0:
+                            base_default_bad[p[2]] = True
                         continue
                     if sts[0] == "ok":
                         want = len(doc.rstrip(WS.encode()))
@@ -866,7 +877,11 @@ def _judge_worker2(workdir, k):
                 st, ref = reference(base)
                 res["evaluations"] += 2
                 sts, where, what, tagcol = o[0]
-                if sts[2] != "ok":
+                if base_default_bad.get(p[4]):
+                    # the unmodified base document is already reported under conformance:*; its extension
+                    # variant inherits that failure and says nothing about the extension
+                    res["counters"]["ext_default_skipped_base_failed"] = res["counters"].get("ext_default_skipped_base_failed", 0) + 1
+                elif sts[2] != "ok":
                     viol("extension:%s:default-rejected" % ek, "default mode rejects a document whose only non-standard feature is the documented extension '%s': %s: %s" % (ek, sts[2], what), case)
                 else:
                     r = compare(ref, tagval(tagcol))
